@@ -173,9 +173,12 @@ CLAIMS["C17"] = dict(
          "and into_plan copies template and locks; Plan::satisfy's per-type assembly equals the direct assembly / the "
          "standard; every Satisfaction value takes stack, absolute and relative lock from one source (exact tables of "
          "minimum / minimum_mall, symbolic concatenate_rev, per-fragment templates with symbolic locks); announced sizes "
-         "count what is produced; the Assets key-source relation as an exhaustive table on short paths; mode dispatch.",
-    note="Trusted: spec/outputs.py, spec/satisfaction.py; rustc THIR. Minimality of reported locks and byte equality of "
-         "completed plans are not decided.",
+         "count what is produced; the Assets key-source relation as an exhaustive table on short paths; mode dispatch; and "
+         "on ~60 whole scripts x key subsets x preimage sets x both modes (template builder evaluated with a modelled "
+         "AssetProvider) the locks a template reports are necessary and sufficient for its witness in the reference "
+         "execution (validates with them, fails with one less and with the other unit; no lock reported = none needed).",
+    note="Trusted: spec/outputs.py, spec/satisfaction.py, spec/msexec.py; rustc THIR. Byte equality of completed plans "
+         "is not decided.",
     tech=STATIC + "call-structure rules, finite decision tables and symbolic field-provenance extraction from THIR",
     engine="symx+tablex")
 
